@@ -492,6 +492,8 @@ def cases(rng, tier, n=None):
             spf = [_gen_time(rng, 0, max(1, total // GRID + 8)) for _ in range(rng.randint(0, 6))]
             if spf and rng.random() < 0.3:
                 spf.append(rng.choice(spf))
+        if isinstance(spf, int) and total <= 0:
+            continue        # zero frames: outside the quantifier ("1..64 chord frames"); the helper indexes row 0
         out.append({'op': 'pitch_vectors', 'input': {'notes': notes, 'total': total, 'spf': spf}})
     for _ in range(300 if thorough else 30):         # two-step use: melody inference on its own output
         notes, total = _gen_melody_notes(rng, rng.randint(1, 8))
